@@ -6,6 +6,7 @@ agent/consul/filter.go) and CV/FilterExpiry.lean (token resolution with cache, s
 -/
 import CV.Proofs.Filter
 import CV.FilterExpiry
+import CV.Generated.FactsFilter
 namespace CV.Filter
 
 /-! ## Loop shapes -/
@@ -254,6 +255,12 @@ def witnesses : List Resp := [
     representatives, in switch order, 35 distinct types). -/
 theorem modelledTypes_are_modelled :
     modelledTypes = witnesses.map Resp.goType ∧ modelledTypes.length = 35 ∧ modelledTypes.Nodup := by
+  decide
+
+/-- FACT OBLIGATION (regenerated tie): the cases of the `Filter.Filter` type switch, re-extracted
+    from `/repo/agent/structs/aclfilter/filter.go` by go/factgen on every run, are exactly the modelled
+    types (followed by the panicking `default`). Adding, removing or reordering a case breaks this. -/
+theorem all_cases_modelled : CV.Facts.Filter.filterCases = modelledTypes ++ ["default"] := by
   decide
 
 /-- … and every constructor of the model stands for a listed type. The fact obligation
